@@ -33,14 +33,19 @@ vars == <<i, done>>
 PairsToFun(ps) == [k \in { ps[j].n : j \in 1..Len(ps) } |-> ps[CHOOSE j \in 1..Len(ps) : ps[j].n = k].v]
 SameFun(f, g) == DOMAIN f = DOMAIN g /\ \A k \in DOMAIN f : f[k] = g[k]
 
-\* ---- the shape of a command: its name, its keyword arguments in order, and how many value arguments a set() has
-Keywords == {"CACHE", "FORCE", "INTERFACE", "IMPORTED", "ALIAS", "GLOBAL", "ALL", "COMMAND", "DEPENDS", "SOURCES", "VERBATIM",
-             "WORKING_DIRECTORY", "BYPRODUCTS", "COMMENT", "TARGET", "APPEND", "APPEND_STRING", "PROPERTY", "PROPERTIES",
-             "PUBLIC", "PRIVATE", "LINK_PUBLIC", "LINK_PRIVATE", "LINK_INTERFACE_LIBRARIES", "SYSTEM", "BEFORE", "AFTER",
-             "FATAL_ERROR", "SEND_ERROR", "SHARED", "STATIC", "MODULE", "UNKNOWN", "OBJECT"}
+\* ---- the shape of a command: its name, which keywords it uses (in a fixed order, each once), whether an
+\* add_custom_target starts with a command that has no COMMAND keyword, and how many value arguments a
+\* set() / set_property() has
+KwOrder == <<"CACHE", "FORCE", "IMPORTED", "ALIAS", "SHARED", "STATIC", "MODULE", "UNKNOWN", "OBJECT", "GLOBAL", "ALL",
+             "SOURCES", "BYPRODUCTS", "COMMENT", "WORKING_DIRECTORY", "APPEND", "APPEND_STRING", "SYSTEM", "BEFORE", "AFTER",
+             "PUBLIC", "PRIVATE", "INTERFACE", "LINK_PUBLIC", "LINK_PRIVATE", "LINK_INTERFACE_LIBRARIES", "FATAL_ERROR", "SEND_ERROR">>
 RECURSIVE KwString(_, _)
-KwString(args, j) == IF j > Len(args) THEN ""
-                     ELSE (IF Len(args[j]) = 1 /\ args[j][1] \in Keywords THEN "," \o args[j][1] ELSE "") \o KwString(args, j + 1)
+KwString(args, j) == IF j > Len(KwOrder) THEN ""
+                     ELSE (IF HasArg(args, KwOrder[j]) THEN "," \o KwOrder[j] ELSE "") \o KwString(args, j + 1)
+LeadingCommand(c) == c.cmd = "add_custom_target" /\
+                     LET rest == Flat(Tail(c.args))
+                         r == IF rest # <<>> /\ rest[1] = "ALL" THEN Tail(rest) ELSE rest
+                     IN r # <<>> /\ r[1] \notin CustomKeywords
 ValueArgs(c) == IF c.cmd = "set"
                 THEN LET ci == IndexOf(c.args, Kw("CACHE"))
                          n == (IF ci = 0 THEN Len(c.args) ELSE ci - 1) - 1
@@ -50,7 +55,7 @@ ValueArgs(c) == IF c.cmd = "set"
                          n == Len(c.args) - pi - 1
                      IN IF pi = 0 \/ n <= 0 THEN "/0" ELSE IF n = 1 THEN "/1" ELSE "/n"
                 ELSE ""
-Shape(c) == c.cmd \o "(" \o KwString(c.args, 1) \o ")" \o ValueArgs(c)
+Shape(c) == c.cmd \o "(" \o (IF LeadingCommand(c) THEN "leading-command" ELSE "") \o KwString(c.args, 1) \o ")" \o ValueArgs(c)
 
 Verdict(c, clause, k, what, exp, got) ==
     [id |-> c.id, clause |-> clause, k |-> k, what |-> what, shape |-> IF k >= 1 /\ k <= Len(CmdsOf(c)) THEN Shape(CmdsOf(c)[k]) ELSE "",
